@@ -1065,6 +1065,22 @@ def run_case(case, cold=False):
             if v:
                 viol += v
                 break
+        if not viol and case.get('info_in_run'):
+            # the same run printed `info` (asked for before AND after the edit): it must describe the file as the run left it
+            try:
+                rd = L.read_program(texts[-1])
+            except (SyntaxFail, Unspecified):
+                rd = None
+            if rd is not None:
+                infos = [c for c in cmds if c.get('operation') == 'info']
+                seen_i, uniq = set(), []
+                for c in infos:
+                    k = json.dumps(c, sort_keys=True)
+                    if k not in seen_i:
+                        seen_i.add(k)
+                        uniq.append(c)
+                viol += [(k.replace('C17:info:', 'C17:info-in-run:'), w + ' (info requested before and after the edit in one run)')
+                         for k, w in check_info(res['out'], uniq, rd, counters)]
         if not viol and case.get('observe'):
             try:
                 rd = L.read_program(texts[-1])
@@ -1360,6 +1376,21 @@ def layer_b(ck):
                     # the JSON form of the same pair already observes the final state through `info`
                     cases.append({'id': 'B/%s/%s/%s,%s' % (sh, form, x, y), 'layer': 'B', 'text': text, 'cmds': [alpha[x], alpha[y]],
                                   'form': form, 'observe': form == 'json', 'family': 'pair'})
+    # info, edit, info in ONE run (JSON form only: the CLI runs one command per process)
+    sandwich = {'add-new': 'target', 'rm-existing': 'target', 'xf-add': 'target', 'kw-set-new-true': 'target', 'kw-set-existing': 'target',
+                'kw-del-existing': 'target', 'proj-set-version': 'project', 'proj-add-license': 'project', 'proj-del-license': 'project',
+                'dep-set-required': 'dependency', 'dep-add-version': 'dependency'}
+    for sh in (('literal', 'variable', 'files', 'extra-files') if ck.thorough else ('literal', 'extra-files')):
+        text = shape_text(sh)
+        for x, what in sandwich.items():
+            if what == 'target':
+                infos = [c_target('prog', 'info'), c_kwargs('info', 'target', 'prog', {})]
+            elif what == 'project':
+                infos = [c_kwargs('info', 'project', '/', {})]
+            else:
+                infos = [c_kwargs('info', 'dependency', 'zlib', {})]
+            cases.append({'id': 'B/%s/json/info,%s,info' % (sh, x), 'layer': 'B', 'text': text, 'cmds': infos + [alpha[x]] + infos,
+                          'form': 'json', 'observe': False, 'info_in_run': True, 'family': 'info-sandwich'})
     return cases
 
 
